@@ -2468,4 +2468,697 @@ theorem floatMul_fmul53_fails : ¬ FloatMul (1 / 2 ^ 53) fmul53 := by
   revert this
   decide +kernel
 
+/-! ## Part 18 (phase 5): the float model with `x·1 = x` demanded only on representable `x` -/
+
+/-- `FloatMul` with its first clause restricted to the numbers satisfying `R` (the representable ones) -/
+def FloatMulOn (R : Rat → Prop) (u : Rat) (fmul : Rat → Rat → Rat) : Prop :=
+  (∀ a, R a → fmul a 1 = a) ∧ ∀ a b, ∃ ε, -u ≤ ε ∧ ε ≤ u ∧ fmul a b = a * b * (1 + ε)
+
+theorem floatMulOn_of_floatMul {u : Rat} {fmul : Rat → Rat → Rat} (R : Rat → Prop) (h : FloatMul u fmul) :
+    FloatMulOn R u fmul := ⟨fun a _ => h.1 a, h.2⟩
+
+theorem floatMul_of_floatMulOn_true {u : Rat} {fmul : Rat → Rat → Rat} (h : FloatMulOn (fun _ => True) u fmul) :
+    FloatMul u fmul := ⟨fun a => h.1 a trivial, h.2⟩
+
+section
+variable {R : Rat → Prop} {u : Rat} {fmul : Rat → Rat → Rat}
+
+theorem approx_mulOn (hf : FloatMulOn R u fmul) (h0 : 0 ≤ u) (h1 : u ≤ 1)
+    {m1 m2 : Nat} {x y x' y' : Rat} (hx : Approx u m1 x y) (hx' : Approx u m2 x' y') :
+    Approx u (m1 + m2 + 1) (fmul x x') (y * y') := by
+  obtain ⟨δ1, rfl, l1, r1⟩ := hx
+  obtain ⟨δ2, rfl, l2, r2⟩ := hx'
+  obtain ⟨ε, e1, e2, he⟩ := hf.2 (y * δ1) (y' * δ2)
+  have a0 : (0 : Rat) ≤ 1 - u := by linarith
+  have p1 : (0 : Rat) ≤ (1 - u) ^ m1 := pow_nonneg a0 _
+  have p2 : (0 : Rat) ≤ (1 - u) ^ m2 := pow_nonneg a0 _
+  have d1 : 0 ≤ δ1 := le_trans p1 l1
+  have d2 : 0 ≤ δ2 := le_trans p2 l2
+  refine ⟨δ1 * δ2 * (1 + ε), by rw [he]; ring, ?_, ?_⟩
+  · rw [pow_succ, pow_add]
+    apply mul_le_mul (mul_le_mul l1 l2 p2 d1) (by linarith) a0 (mul_nonneg d1 d2)
+  · rw [pow_succ, pow_add]
+    have q1 : (0 : Rat) ≤ (1 + u) ^ m1 := pow_nonneg (by linarith) _
+    have q2 : (0 : Rat) ≤ (1 + u) ^ m2 := pow_nonneg (by linarith) _
+    apply mul_le_mul (mul_le_mul r1 r2 d2 q1) (by linarith) (by linarith) (mul_nonneg q1 q2)
+
+theorem monoProd_approxOn (hf : FloatMulOn R u fmul) (h0 : 0 ≤ u) (h1 : u ≤ 1) :
+    ∀ c : List Rat, (∀ v ∈ c, R v) → Approx u (c.length - 1) (monoProd fmul 1 c) (monoProd ratMul 1 c) := by
+  intro c
+  induction c with
+  | nil => intro _; exact approx_refl u 1
+  | cons v r ih =>
+    intro hR
+    cases r with
+    | nil =>
+      simp only [monoProd, List.length_cons, List.length_nil]
+      rw [hf.1 v (hR v List.mem_cons_self)]
+      have : ratMul v 1 = v := by simp [ratMul]
+      rw [this]
+      exact approx_refl u v
+    | cons w r =>
+      have := approx_mulOn hf h0 h1 (approx_refl u v) (ih (fun x hx => hR x (List.mem_cons_of_mem _ hx)))
+      simp only [List.length_cons] at this ⊢
+      have e : (0 + (r.length + 1 - 1) + 1) = r.length + 1 + 1 - 1 := by omega
+      rw [e] at this
+      exact this
+
+theorem monos_approxOn (hf : FloatMulOn R u fmul) (h0 : 0 ≤ u) (h1 : u ≤ 1) (k : Nat) (xs : List Rat)
+    (hx : ∀ v ∈ xs, R v) :
+    List.Forall₂ (Approx u (k - 1)) (monos fmul 1 k xs) (monos ratMul 1 k xs) := by
+  unfold monos
+  apply forall₂_map_same
+  intro c hc
+  obtain ⟨hl, hm⟩ := multichoose_sound k xs c hc
+  have := monoProd_approxOn hf h0 h1 c (fun v hv => hx v (hm v hv))
+  rw [hl] at this
+  exact this
+
+theorem outer_approxOn (hf : FloatMulOn R u fmul) (h0 : 0 ≤ u) (h1 : u ≤ 1) {m1 m2 : Nat} :
+    ∀ {A A' : List Rat}, List.Forall₂ (Approx u m1) A A' → ∀ {B B' : List Rat}, List.Forall₂ (Approx u m2) B B' →
+      List.Forall₂ (Approx u (m1 + m2 + 1)) (outer fmul A B) (outer ratMul A' B') := by
+  intro A A' hA
+  induction hA with
+  | nil => intro B B' _; exact List.Forall₂.nil
+  | @cons a a' A A' ha _ ih =>
+    intro B B' hB
+    simp only [outer, List.flatMap_cons]
+    apply List.rel_append
+    · clear ih
+      induction hB with
+      | nil => exact List.Forall₂.nil
+      | cons hb _ ihb => exact List.Forall₂.cons (approx_mulOn hf h0 h1 ha hb) ihb
+    · exact ih hB
+
+theorem foldl_outer_approxOn (hf : FloatMulOn R u fmul) (h0 : 0 ≤ u) (h1 : u ≤ 1) (F : Char → List Rat)
+    (hF : ∀ c, ∀ v ∈ F c, R v) :
+    ∀ (cp : List (Char × Nat)), (∀ kp ∈ cp, 1 ≤ kp.2) → ∀ (m : Nat) (acc acc' : List Rat),
+      List.Forall₂ (Approx u m) acc acc' →
+      List.Forall₂ (Approx u (m + (cp.map (·.2)).sum))
+        ((cp.map (fun kp => monos fmul 1 kp.2 (F kp.1))).foldl (outer fmul) acc)
+        ((cp.map (fun kp => monos ratMul 1 kp.2 (F kp.1))).foldl (outer ratMul) acc') := by
+  intro cp
+  induction cp with
+  | nil => intro _ m acc acc' h; simpa using h
+  | cons kp cp ih =>
+    intro hp m acc acc' h
+    simp only [List.map_cons, List.foldl, List.sum_cons]
+    have hk := hp kp List.mem_cons_self
+    have := outer_approxOn hf h0 h1 h (monos_approxOn hf h0 h1 kp.2 (F kp.1) (hF kp.1))
+    have e : m + (kp.2 - 1) + 1 = m + kp.2 := by omega
+    rw [e] at this
+    have r := ih (fun q hq => hp q (List.mem_cons_of_mem _ hq)) (m + kp.2) _ _ this
+    rw [Nat.add_assoc] at r
+    exact r
+
+theorem termS_approxOn (hf : FloatMulOn R u fmul) (h0 : 0 ≤ u) (h1 : u ≤ 1) (F : Char → List Rat)
+    (hF : ∀ c, ∀ v ∈ F c, R v) (t : List Char) (ht : t ≠ []) :
+    List.Forall₂ (Approx u (t.length - 1)) (termS fmul 1 F t) (termS ratMul 1 F t) := by
+  unfold termS
+  have hs := sum_factors t
+  have hpos : ∀ kp ∈ factors t, 1 ≤ kp.2 := fun kp hkp => (mem_factors t kp hkp).2.2.1
+  cases hfac : factors t with
+  | nil => exact absurd hfac (factors_ne_nil t ht)
+  | cons kp cp =>
+    rw [hfac] at hs hpos
+    simp only [List.map_cons, outerAll]
+    have r := foldl_outer_approxOn hf h0 h1 F hF cp (fun q hq => hpos q (List.mem_cons_of_mem _ hq)) (kp.2 - 1) _ _
+      (monos_approxOn hf h0 h1 kp.2 (F kp.1) (hF kp.1))
+    have hk := hpos kp List.mem_cons_self
+    simp only [List.map_cons, List.sum_cons] at hs
+    have e : kp.2 - 1 + (cp.map (·.2)).sum = t.length - 1 := by omega
+    rw [e] at r
+    exact r
+
+theorem termsS_approxOn (hf : FloatMulOn R u fmul) (h0 : 0 ≤ u) (h1 : u ≤ 1) (F : Char → List Rat)
+    (hF : ∀ c, ∀ v ∈ F c, R v) (D : Nat) :
+    ∀ (ts : List (List Char)), (∀ t ∈ ts, t ≠ [] ∧ t.length ≤ D) →
+      List.Forall₂ (Approx u (D - 1)) (termsS fmul 1 F ts) (termsS ratMul 1 F ts) := by
+  intro ts
+  induction ts with
+  | nil => intro _; exact List.Forall₂.nil
+  | cons t ts ih =>
+    intro h
+    simp only [termsS, List.flatMap_cons]
+    apply List.rel_append
+    · have ht := h t List.mem_cons_self
+      have := termS_approxOn hf h0 h1 F hF t ht.1
+      exact this.imp (fun _ _ hxy => approx_mono h0 h1 (by omega) hxy)
+    · exact ih (fun t' h' => h t' (List.mem_cons_of_mem _ h'))
+
+theorem encode_float_model_on' (hf : FloatMulOn R u fmul) (h0 : 0 ≤ u) (h1 : u ≤ 1)
+    (is : List Inter) (kw : List (Char × NsVal))
+    (hne : ∀ t ∈ strTerms is, t ≠ []) (hd : isSparseCall kw = false)
+    (hR : ∀ c, ∀ v ∈ featsDense kw c, R v) :
+    ∃ vs vs' : List Rat,
+      encodeG fmul Cfg.fixed is kw = .ok (.dense ((if constant is ≠ 0 then [constant is] else []) ++ vs)) ∧
+      encode Cfg.fixed is kw = .ok (.dense ((if constant is ≠ 0 then [constant is] else []) ++ vs')) ∧
+      List.Forall₂ (Approx u (maxDeg is - 1)) vs vs' := by
+  refine ⟨termsS fmul 1 (featsDense kw) (dedupFirst (strTerms is)),
+          termsS ratMul 1 (featsDense kw) (dedupFirst (strTerms is)), ?_, ?_, ?_⟩
+  · rw [encodeG_eq_spec fmul is kw hne, encodeSG, hd]
+    by_cases hc : constant is ≠ 0 <;> simp [hc]
+  · rw [encode_eq_spec' is kw hne, encodeS, hd]
+    by_cases hc : constant is ≠ 0 <;> simp [hc]
+  · apply termsS_approxOn hf h0 h1 _ hR
+    intro t ht
+    have hm := (mem_dedupFirst _ _).1 ht
+    exact ⟨hne t hm, foldl_max_ge_mem (fun t : List Char => t.length) (strTerms is) 0 t hm⟩
+
+theorem encode_float_model_on_sparse' (hf : FloatMulOn R u fmul) (h0 : 0 ≤ u) (h1 : u ≤ 1)
+    (is : List Inter) (kw : List (Char × NsVal))
+    (hne : ∀ t ∈ strTerms is, t ≠ []) (hs : isSparseCall kw = true)
+    (hR : ∀ c, ∀ p ∈ featsSparse kw c, R p.2) :
+    ∃ kvs kvs' : List (String × Rat),
+      encodeG fmul Cfg.fixed is kw = .ok (.sparse kvs) ∧ encode Cfg.fixed is kw = .ok (.sparse kvs') ∧
+      List.Forall₂ (PairRel (Approx u (maxDeg is - 1))) kvs kvs' := by
+  have hterms : ∀ t ∈ dedupFirst (strTerms is), t ≠ [] ∧ t.length ≤ maxDeg is := by
+    intro t ht
+    have hm := (mem_dedupFirst _ _).1 ht
+    exact ⟨hne t hm, foldl_max_ge_mem (fun t : List Char => t.length) (strTerms is) 0 t hm⟩
+  have hent : List.Forall₂ (PairRel (Approx u (maxDeg is - 1)))
+      (termsS (pairMulG fmul) pairOne (featsSparse kw) (dedupFirst (strTerms is)))
+      (termsS pairMul pairOne (featsSparse kw) (dedupFirst (strTerms is))) := by
+    apply pairRel_of_maps
+    · rw [termsS_map (pairMulG fmul) pairOne strMul "" (·.1) (fun _ _ => rfl) rfl,
+          termsS_map pairMul pairOne strMul "" (·.1) (fun _ _ => rfl) rfl]
+    · rw [termsS_map (pairMulG fmul) pairOne fmul 1 (·.2) (fun _ _ => rfl) rfl,
+          termsS_map pairMul pairOne ratMul 1 (·.2) (fun _ _ => rfl) rfl]
+      apply termsS_approxOn hf h0 h1 _ _ _ _ hterms
+      intro c v hv
+      rw [List.mem_map] at hv
+      obtain ⟨p, hp, rfl⟩ := hv
+      exact hR c p hp
+  have hdict := dictOf_rel hent (List.Forall₂.nil (R := PairRel (Approx u (maxDeg is - 1))))
+  by_cases hc : constant is ≠ 0
+  · refine ⟨_, _, ?_, ?_, dictSet_rel "const" (approx_mono h0 h1 (Nat.zero_le _) (approx_refl u (constant is))) hdict⟩
+    · rw [encodeG_eq_spec fmul is kw hne, encodeSG, hs]; simp [hc, dictOf]
+    · rw [encode_eq_spec' is kw hne, encodeS, hs]; simp [hc, dictOf]
+  · refine ⟨_, _, ?_, ?_, hdict⟩
+    · rw [encodeG_eq_spec fmul is kw hne, encodeSG, hs]; simp [hc, dictOf]
+    · rw [encode_eq_spec' is kw hne, encodeS, hs]; simp [hc, dictOf]
+end
+
+/-- a double away from under/overflow: `m·2^e` with an integer significand of at most 53 bits -/
+def Rep53 (a : Rat) : Prop := ∃ m e : Int, |m| ≤ (2 : Int) ^ 53 ∧ a = (m : Rat) * (2 : Rat) ^ e
+
+theorem fl53_rep {a : Rat} (h : Rep53 a) : fl53 a = a := by
+  obtain ⟨m, e, hm, hq⟩ := h
+  exact roundSig_exact 53 (by norm_num) a m e hm hq
+
+theorem floatMulOn_fmul53' : FloatMulOn Rep53 (1 / 2 ^ 53) fmul53 := by
+  refine ⟨?_, ?_⟩
+  · intro a ha
+    unfold fmul53
+    rw [mul_one]
+    exact fl53_rep ha
+  · intro a b
+    have h := fmul53_rel_err a b
+    by_cases hq : a * b = 0
+    · refine ⟨0, by norm_num, by norm_num, ?_⟩
+      rw [hq] at h ⊢
+      simp at h
+      simp [h]
+    · have hε : (fmul53 a b - a * b) / (a * b) * (a * b) = fmul53 a b - a * b := div_mul_cancel₀ _ hq
+      generalize (fmul53 a b - a * b) / (a * b) = ε at hε
+      generalize fmul53 a b = f at h hε
+      generalize a * b = q at h hε hq
+      have hb := abs_le.1 h
+      refine ⟨ε, ?_, ?_, by linarith [hε]⟩
+      · rcases lt_or_gt_of_ne hq with hn | hp
+        · rw [abs_of_neg hn] at hb
+          by_contra hc; have hc := not_le.1 hc
+          have : (-(1 / 2 ^ 53) - ε) * (-q) > 0 := mul_pos (by linarith) (by linarith)
+          nlinarith [hb.1, hb.2]
+        · rw [abs_of_pos hp] at hb
+          by_contra hc; have hc := not_le.1 hc
+          have : (-(1 / 2 ^ 53) - ε) * q > 0 := mul_pos (by linarith) hp
+          nlinarith [hb.1, hb.2]
+      · rcases lt_or_gt_of_ne hq with hn | hp
+        · rw [abs_of_neg hn] at hb
+          by_contra hc; have hc := not_le.1 hc
+          have : (ε - 1 / 2 ^ 53) * (-q) > 0 := mul_pos (by linarith) (by linarith)
+          nlinarith [hb.1, hb.2]
+        · rw [abs_of_pos hp] at hb
+          by_contra hc; have hc := not_le.1 hc
+          have : (ε - 1 / 2 ^ 53) * q > 0 := mul_pos (by linarith) hp
+          nlinarith [hb.1, hb.2]
+
+/-- every rounded number is representable (so the hypothesis on the inputs is what a Python float gives) -/
+theorem rep53_example : Rep53 (3602879701896397 / 36028797018963968) ∧ ¬ (fmul53 (1 / 3) 1 = 1 / 3) := by
+  refine ⟨⟨3602879701896397, -55, by norm_num, by norm_num⟩, by decide +kernel⟩
+
+/-! ## Part 19 (phase 5): `_pmf` read off the source; the selection step -/
+
+theorem zipWith_map_same {α β γ δ : Type} (g : β → γ → δ) (f1 : α → β) (f2 : α → γ) :
+    ∀ l : List α, List.zipWith g (l.map f1) (l.map f2) = l.map (fun x => g (f1 x) (f2 x)) := by
+  intro l; induction l with
+  | nil => rfl
+  | cons a l ih => simp [ih]
+
+theorem zipWith_map_left_same {α β δ : Type} (g : β → α → δ) (f1 : α → β) :
+    ∀ l : List α, List.zipWith g (l.map f1) l = l.map (fun x => g (f1 x) x) := by
+  intro l; induction l with
+  | nil => rfl
+  | cons a l ih => simp [ih]
+
+/-- what the program of linucb's `_pmf` evaluates to, numpy operation by numpy operation -/
+def LinState.pmfAlt (sq : Rat → Rat) (alpha : Rat) (s : LinState) (fs : List (List Rat)) : List Rat :=
+  pmfOfValues (List.zipWith (· + ·)
+    (((List.zipWith dotQ (fs.map (matVecQ s.ainv)) fs).map sq).map (fun x => alpha * x)) (fs.map (dotQ s.theta)))
+
+theorem pmfAlt_eq (sq : Rat → Rat) (alpha : Rat) (s : LinState) (fs : List (List Rat)) :
+    s.pmfAlt sq alpha fs = s.pmf sq alpha fs := by
+  unfold LinState.pmfAlt LinState.pmf LinState.score
+  rw [List.zipWith_comm_of_comm (comm := fun a b => add_comm a b)]
+  rw [zipWith_map_left_same, List.map_map, List.map_map]
+  have : (fun x => (fun x => alpha * x) (sq x)) ∘ (fun x => dotQ (matVecQ s.ainv x) x)
+      = fun f => alpha * sq (dotQ (matVecQ s.ainv f) f) := rfl
+  simp only [Function.comp_def]
+  rw [zipWith_map_same]
+
+theorem predict_prog_sound {prog : List PExp} {lhs top : PExp} {sq : Rat → Rat} {s : LinState} {fs : List (List Rat)} {alpha : Rat}
+    (h : runPredict sq prog lhs top s fs alpha = some (s.pmfAlt sq alpha fs)) :
+    runPredict sq prog lhs top s fs alpha = some (s.pmf sq alpha fs) :=
+  h.trans (congrArg some (pmfAlt_eq sq alpha s fs))
+
+theorem foldl_max_ge (l : List Rat) (x : Rat) : x ≤ l.foldl max x ∧ ∀ w ∈ l, w ≤ l.foldl max x := by
+  induction l generalizing x with
+  | nil => exact ⟨le_refl _, by simp⟩
+  | cons a l ih =>
+    simp only [List.foldl]
+    obtain ⟨h1, h2⟩ := ih (max x a)
+    refine ⟨le_trans (le_max_left _ _) h1, ?_⟩
+    intro w hw
+    rcases List.mem_cons.1 hw with rfl | hw
+    · exact le_trans (le_max_right _ _) h1
+    · exact h2 w hw
+
+theorem foldl_max_mem (l : List Rat) (x : Rat) : l.foldl max x = x ∨ l.foldl max x ∈ l := by
+  induction l generalizing x with
+  | nil => left; rfl
+  | cons a l ih =>
+    simp only [List.foldl]
+    rcases ih (max x a) with h | h
+    · rcases max_choice x a with hm | hm
+      · left; rw [h, hm]
+      · right; rw [h, hm]; exact List.mem_cons_self
+    · right; exact List.mem_cons_of_mem _ h
+
+theorem maxQ_ge (vals : List Rat) : ∀ w ∈ vals, w ≤ maxQ vals := by
+  cases vals with
+  | nil => simp
+  | cons x r =>
+    intro w hw
+    rcases List.mem_cons.1 hw with rfl | hw
+    · exact (foldl_max_ge r w).1
+    · exact (foldl_max_ge r x).2 w hw
+
+theorem maxQ_mem (vals : List Rat) (h : vals ≠ []) : maxQ vals ∈ vals := by
+  cases vals with
+  | nil => exact absurd rfl h
+  | cons x r =>
+    rcases foldl_max_mem r x with hm | hm
+    · simp only [maxQ]; rw [hm]; exact List.mem_cons_self
+    · exact List.mem_cons_of_mem _ hm
+
+theorem sum_map_ite (l : List Rat) (t c : Rat) :
+    (l.map (fun v => if v = t then c else 0)).sum = ((l.countP (fun w => w = t) : Nat) : Rat) * c := by
+  induction l with
+  | nil => simp
+  | cons a l ih =>
+    simp only [List.map_cons, List.sum_cons, ih, List.countP_cons]
+    by_cases h : a = t
+    · simp [h]; ring
+    · simp [h]
+
+theorem count_max_pos (vals : List Rat) (h : vals ≠ []) : 0 < vals.countP (fun w => w = maxQ vals) := by
+  rw [List.countP_pos_iff]
+  exact ⟨maxQ vals, maxQ_mem vals h, by simp⟩
+
+/-- the returned list is a probability distribution -/
+theorem pmf_sum_one' (vals : List Rat) (h : vals ≠ []) : (pmfOfValues vals).sum = 1 := by
+  unfold pmfOfValues selectEq
+  rw [sum_map_ite]
+  have hp := count_max_pos vals h
+  have : ((vals.countP (fun w => w = maxQ vals) : Nat) : Rat) ≠ 0 := by exact_mod_cast (Nat.pos_iff_ne_zero.1 hp)
+  exact mul_one_div_cancel this
+
+theorem pmf_length' (vals : List Rat) : (pmfOfValues vals).length = vals.length := by simp [pmfOfValues, selectEq]
+
+/-- entry i is positive exactly when action i is a maximiser; then it is 1/#maximisers (ties share uniformly) -/
+theorem pmf_entry' (vals : List Rat) (i : Nat) (hi : i < vals.length) :
+    (pmfOfValues vals)[i]'(by rw [pmf_length']; exact hi)
+      = if ∀ w ∈ vals, w ≤ vals[i] then 1 / ((vals.countP (fun w => w = vals[i]) : Nat) : Rat) else 0 := by
+  unfold pmfOfValues selectEq
+  rw [List.getElem_map]
+  by_cases h : vals[i] = maxQ vals
+  · rw [if_pos h, if_pos (by rw [h]; exact maxQ_ge vals), h]
+  · rw [if_neg h, if_neg]
+    intro hall
+    apply h
+    have hne : vals ≠ [] := by intro e; subst e; simp at hi
+    exact le_antisymm (maxQ_ge vals _ (List.getElem_mem hi)) (hall _ (maxQ_mem vals hne))
+
+theorem pmf_entry_pos' (vals : List Rat) (i : Nat) (hi : i < vals.length) :
+    0 < (pmfOfValues vals)[i]'(by rw [pmf_length']; exact hi) ↔ ∀ w ∈ vals, w ≤ vals[i] := by
+  rw [pmf_entry' vals i hi]
+  constructor
+  · intro h; by_contra hc; rw [if_neg hc] at h; exact lt_irrefl _ h
+  · intro h
+    rw [if_pos h]
+    have : 0 < vals.countP (fun w => w = vals[i]) := by
+      rw [List.countP_pos_iff]; exact ⟨vals[i], List.getElem_mem hi, by simp⟩
+    have : (0 : Rat) < ((vals.countP (fun w => w = vals[i]) : Nat) : Rat) := by exact_mod_cast this
+    exact one_div_pos.2 this
+
+/-- the prediction of LinUCB does not depend on the layout of the encoded features -/
+theorem pmf_perm' {n : Nat} {s : LinState} (hs : s.WF n) {fs : List (List Rat)} (hf : ∀ f ∈ fs, f.length = n)
+    {p : List Nat} (hp : p.Perm (List.range n)) (sq : Rat → Rat) (alpha : Rat) :
+    (s.perm p).pmf sq alpha (fs.map (permV p)) = s.pmf sq alpha fs := by
+  unfold LinState.pmf
+  rw [List.map_map]
+  congr 1
+  apply List.map_congr_left
+  intro f hfm
+  simp only [Function.comp_def]
+  rw [score_perm' hs (hf f hfm) hp]
+
+/-- what the program of lints' `_pmf` (branch `v = 0`) evaluates to -/
+def LinState.pmfTSAlt (rnd : Rat → Rat) (s : LinState) (fs : List (List Rat)) : List Rat :=
+  selectEq ((fs.map (dotQ s.theta)).map rnd) (rnd (maxQ (fs.map (dotQ s.theta))))
+
+theorem pmfTSAlt_eq (rnd : Rat → Rat) (s : LinState) (fs : List (List Rat)) : s.pmfTSAlt rnd fs = s.pmfTS rnd fs := by
+  simp [LinState.pmfTSAlt, LinState.pmfTS, LinState.score, List.map_map, Function.comp_def]
+
+theorem predictTS_prog_sound {prog : List PExp} {lhs top : PExp} {rnd : Rat → Rat} {s : LinState} {fs : List (List Rat)} {alpha : Rat}
+    (h : runPredict rnd prog lhs top s fs alpha = some (s.pmfTSAlt rnd fs)) :
+    runPredict rnd prog lhs top s fs alpha = some (s.pmfTS rnd fs) :=
+  h.trans (congrArg some (pmfTSAlt_eq rnd s fs))
+
+/-- a monotone function commutes with the maximum of a non-empty list -/
+theorem maxQ_map_mono (g : Rat → Rat) (hg : ∀ a b, a ≤ b → g a ≤ g b) (vals : List Rat) (h : vals ≠ []) :
+    g (maxQ vals) = maxQ (vals.map g) := by
+  have hne : vals.map g ≠ [] := by simpa using h
+  apply le_antisymm
+  · exact maxQ_ge _ _ (List.mem_map.2 ⟨maxQ vals, maxQ_mem vals h, rfl⟩)
+  · obtain ⟨w, hw, e⟩ := List.mem_map.1 (maxQ_mem _ hne)
+    rw [← e]
+    exact hg _ _ (maxQ_ge vals w hw)
+
+theorem pmfTS_eq_pmfOfValues' (rnd : Rat → Rat) (hg : ∀ a b, a ≤ b → rnd a ≤ rnd b) (s : LinState)
+    (fs : List (List Rat)) (h : fs ≠ []) :
+    s.pmfTS rnd fs = pmfOfValues (fs.map (fun f => rnd (s.score f).1)) := by
+  unfold LinState.pmfTS pmfOfValues
+  rw [maxQ_map_mono rnd hg _ (by simpa using h), List.map_map]
+  rfl
+
+theorem linRunPredict_congr {run run' : LinState → List (List Rat) → Option (List Rat)} (h : ∀ s fs, run s fs = run' s fs)
+    (s : LinState) (es : List LinEvent) : linRunPredict run s es = linRunPredict run' s es := by
+  induction es generalizing s with
+  | nil => rfl
+  | cons e es ih =>
+    cases e with
+    | learn f r => simp only [linRunPredict]; exact ih _
+    | predict fs => simp only [linRunPredict]; rw [h, ih]
+
+/-! ## Part 20 (phase 5): the equal-length no-collision condition for whole calls -/
+
+/-- first character of a name -/
+def hd (s : String) : Option Char := s.toList.head?
+
+theorem monoProd_append_flatten {α : Type} (c : List (List α)) : monoProd (· ++ ·) [] c = c.flatten := by
+  induction c with
+  | nil => rfl
+  | cons a r ih => simp [monoProd, ih]
+
+theorem outer_append_nodup {α : Type} (A B : List (List α)) (m : Nat) (hA : A.Nodup) (hB : B.Nodup)
+    (hm : ∀ a ∈ A, a.length = m) : (outer (· ++ ·) A B).Nodup := by
+  unfold outer
+  rw [List.nodup_flatMap]
+  constructor
+  · intro a _; exact hB.map (List.append_right_injective a)
+  · refine List.Pairwise.imp_of_mem ?_ hA
+    intro a a' ha ha' hne
+    simp only [Function.onFun, List.disjoint_left]
+    intro w hw hw'
+    obtain ⟨b, _, rfl⟩ := List.mem_map.1 hw
+    obtain ⟨b', _, e⟩ := List.mem_map.1 hw'
+    exact hne (List.append_inj_left e.symm (by rw [hm a ha, hm a' ha']))
+
+theorem mem_outer_append {α : Type} (A B : List (List α)) (w : List α) :
+    w ∈ outer (· ++ ·) A B ↔ ∃ a ∈ A, ∃ b ∈ B, w = a ++ b := by
+  simp only [outer, List.mem_flatMap, List.mem_map]
+  constructor
+  · rintro ⟨a, ha, b, hb, rfl⟩; exact ⟨a, ha, b, hb, rfl⟩
+  · rintro ⟨a, ha, b, hb, rfl⟩; exact ⟨a, ha, b, hb, rfl⟩
+
+section
+variable (F : Char → List String)
+
+/-- the features of a namespace as one-letter words -/
+def W (c : Char) : List (List String) := (F c).map (fun s => [s])
+
+theorem mem_monos_words (k : Nat) (c : Char) (w : List String) (h : w ∈ monos (· ++ ·) [] k (W F c)) :
+    w.length = k ∧ ∀ s ∈ w, s ∈ F c := by
+  unfold monos at h
+  obtain ⟨comb, hc, rfl⟩ := List.mem_map.1 h
+  obtain ⟨hl, hm⟩ := multichoose_sound k (W F c) comb hc
+  rw [monoProd_append_flatten]
+  have hsing : ∀ x ∈ comb, ∃ s ∈ F c, x = [s] := by
+    intro x hx
+    obtain ⟨s, hs, e⟩ := List.mem_map.1 (hm x hx)
+    exact ⟨s, hs, e.symm⟩
+  constructor
+  · rw [List.length_flatten]
+    have : comb.map List.length = List.replicate comb.length 1 := by
+      rw [List.eq_replicate_iff]
+      refine ⟨by simp, ?_⟩
+      intro n hn
+      obtain ⟨x, hx, rfl⟩ := List.mem_map.1 hn
+      obtain ⟨s, _, rfl⟩ := hsing x hx
+      rfl
+    rw [this]; simp [hl]
+  · intro s hs
+    obtain ⟨x, hx, hsx⟩ := List.mem_flatten.1 hs
+    obtain ⟨s', hs', rfl⟩ := hsing x hx
+    simp at hsx; subst hsx; exact hs'
+
+theorem monos_words_nodup (k : Nat) (c : Char) (hF : (F c).Nodup) : (monos (· ++ ·) [] k (W F c)).Nodup := by
+  unfold monos
+  have hW : (W F c).Nodup := hF.map (fun a b e => by simpa using e)
+  refine List.Nodup.map_on ?_ (List.Nodup.of_map _ (multichoose_nodup k (W F c) hW))
+  intro a ha b hb e
+  rw [monoProd_append_flatten, monoProd_append_flatten] at e
+  have one : ∀ comb, comb ∈ multichoose k (W F c) → ∀ x ∈ comb, x.length = 1 := by
+    intro comb hc x hx
+    obtain ⟨s, _, e⟩ := List.mem_map.1 ((multichoose_sound k (W F c) comb hc).2 x hx)
+    rw [← e]; rfl
+  exact flatten_inj_of_equal_length 1 (le_refl 1) a b (one a ha) (one b hb) e
+
+/-- what is known about every word of a partial product over the namespace factors `cp` -/
+def WordOK (cs : List Char) (w : List String) : Prop :=
+  w.length = cs.length ∧ ∀ i (h : i < w.length) (h' : i < cs.length), w[i] ∈ F cs[i]
+
+theorem wordOK_append {cs cs' : List Char} {w w' : List String} (h : WordOK F cs w) (h' : WordOK F cs' w') :
+    WordOK F (cs ++ cs') (w ++ w') := by
+  obtain ⟨hl, hm⟩ := h
+  obtain ⟨hl', hm'⟩ := h'
+  refine ⟨by simp [hl, hl'], ?_⟩
+  intro i hi hi'
+  by_cases hlt : i < w.length
+  · rw [List.getElem_append_left hlt, List.getElem_append_left (by omega)]
+    exact hm i hlt (by omega)
+  · rw [List.getElem_append_right (by omega), List.getElem_append_right (by omega)]
+    have : i - w.length = i - cs.length := by omega
+    simp only [List.length_append] at hi hi'
+    have h2 := hm' (i - w.length) (by omega) (by omega)
+    simpa [this, hl] using h2
+
+theorem foldl_words (cp : List (Char × Nat)) (hF : ∀ kp ∈ cp, (F kp.1).Nodup) :
+    ∀ (pre : List Char) (acc : List (List String)), acc.Nodup → (∀ w ∈ acc, WordOK F pre w) →
+      let res := (cp.map (fun kp => monos (· ++ ·) [] kp.2 (W F kp.1))).foldl (outer (· ++ ·)) acc
+      res.Nodup ∧ ∀ w ∈ res, WordOK F (pre ++ cp.flatMap (fun kp => List.replicate kp.2 kp.1)) w := by
+  induction cp with
+  | nil => intro pre acc hn hw; simpa using ⟨hn, hw⟩
+  | cons kp cp ih =>
+    intro pre acc hn hw
+    simp only [List.map_cons, List.foldl, List.flatMap_cons]
+    have hB := monos_words_nodup F kp.2 kp.1 (hF kp List.mem_cons_self)
+    have hacc : (outer (· ++ ·) acc (monos (· ++ ·) [] kp.2 (W F kp.1))).Nodup :=
+      outer_append_nodup _ _ pre.length hn hB (fun a ha => (hw a ha).1)
+    have hok : ∀ w ∈ outer (· ++ ·) acc (monos (· ++ ·) [] kp.2 (W F kp.1)), WordOK F (pre ++ List.replicate kp.2 kp.1) w := by
+      intro w hwm
+      obtain ⟨a, ha, b, hb, rfl⟩ := (mem_outer_append _ _ _).1 hwm
+      apply wordOK_append F (hw a ha)
+      obtain ⟨hl, hm⟩ := mem_monos_words F kp.2 kp.1 b hb
+      refine ⟨by simp [hl], ?_⟩
+      intro i hi hi'
+      simp only [List.getElem_replicate]
+      exact hm _ (List.getElem_mem hi)
+    have := ih (fun q hq => hF q (List.mem_cons_of_mem _ hq)) (pre ++ List.replicate kp.2 kp.1) _ hacc hok
+    simpa [List.append_assoc] using this
+
+theorem termS_words (t : List Char) (hF : ∀ c ∈ t, (F c).Nodup) :
+    (termS (· ++ ·) [] (W F) t).Nodup ∧ ∀ w ∈ termS (· ++ ·) [] (W F) t, WordOK F (canonTerm t) w := by
+  unfold termS canonTerm
+  have hFk : ∀ kp ∈ factors t, (F kp.1).Nodup := fun kp hkp => hF kp.1 (mem_factors t kp hkp).1
+  cases hfac : factors t with
+  | nil => simp [outerAll]
+  | cons kp cp =>
+    rw [hfac] at hFk
+    simp only [List.map_cons, outerAll, List.flatMap_cons]
+    have h0 : ∀ w ∈ monos (· ++ ·) [] kp.2 (W F kp.1), WordOK F (List.replicate kp.2 kp.1) w := by
+      intro w hw
+      obtain ⟨hl, hm⟩ := mem_monos_words F kp.2 kp.1 w hw
+      refine ⟨by simp [hl], ?_⟩
+      intro i hi hi'
+      simp only [List.getElem_replicate]
+      exact hm _ (List.getElem_mem hi)
+    exact foldl_words F cp (fun q hq => hFk q (List.mem_cons_of_mem _ hq)) _ _
+      (monos_words_nodup F kp.2 kp.1 (hFk kp List.mem_cons_self)) h0
+
+/-- a word determines the regrouped term it belongs to, when every name starts with its namespace letter -/
+theorem wordOK_sig {cs : List Char} (hhd : ∀ c ∈ cs, ∀ s ∈ F c, hd s = some c) {w : List String} (h : WordOK F cs w) :
+    w.map hd = cs.map some := by
+  obtain ⟨hl, hm⟩ := h
+  apply List.ext_getElem (by simp [hl])
+  intro i h1 h2
+  simp only [List.getElem_map]
+  simp only [List.length_map] at h1 h2
+  exact hhd _ (List.getElem_mem h2) _ (hm i h1 h2)
+
+theorem mem_canonTerm (t : List Char) (c : Char) (h : c ∈ canonTerm t) : c ∈ t := by
+  unfold canonTerm at h
+  obtain ⟨kp, hkp, hc⟩ := List.mem_flatMap.1 h
+  rw [(List.mem_replicate.1 hc).2]
+  exact (mem_factors t kp hkp).1
+
+theorem termsS_words_nodup (ts : List (List Char)) (hhd : ∀ t ∈ ts, ∀ c ∈ t, ∀ s ∈ F c, hd s = some c)
+    (hF : ∀ t ∈ ts, ∀ c ∈ t, (F c).Nodup) (hts : (ts.map canonTerm).Nodup) :
+    (termsS (· ++ ·) [] (W F) ts).Nodup := by
+  unfold termsS
+  rw [List.nodup_flatMap]
+  constructor
+  · intro t ht; exact (termS_words F t (hF t ht)).1
+  · have hp : ts.Pairwise (fun a b => canonTerm a ≠ canonTerm b) := List.pairwise_map.1 hts
+    refine List.Pairwise.imp_of_mem ?_ hp
+    intro t t' ht ht' hne
+    simp only [Function.onFun, List.disjoint_left]
+    intro w hw hw'
+    have s1 := wordOK_sig F (fun c hc => hhd t ht c (mem_canonTerm t c hc)) ((termS_words F t (hF t ht)).2 w hw)
+    have s2 := wordOK_sig F (fun c hc => hhd t' ht' c (mem_canonTerm t' c hc)) ((termS_words F t' (hF t' ht')).2 w hw')
+    rw [s1] at s2
+    exact hne (List.map_injective_iff.2 (fun _ _ e => Option.some.inj e) s2)
+
+/-- the name of a word -/
+def joinW (w : List String) : String := monoProd strMul "" w
+
+theorem joinW_append (a b : List String) : joinW (a ++ b) = strMul (joinW a) (joinW b) := by
+  induction a with
+  | nil => simp [joinW, monoProd, strMul]
+  | cons s r ih =>
+    simp only [joinW, List.cons_append, monoProd] at ih ⊢
+    rw [ih]; simp [strMul, String.append_assoc]
+
+theorem names_eq_map_words (ts : List (List Char)) :
+    termsS strMul "" F ts = (termsS (· ++ ·) [] (W F) ts).map joinW := by
+  rw [termsS_map (· ++ ·) [] strMul "" joinW joinW_append rfl]
+  congr 1
+  funext c
+  simp [W, List.map_map, joinW, monoProd, strMul, Function.comp_def]
+
+theorem word_lengths (L : Nat) (ts : List (List Char)) (hF : ∀ t ∈ ts, ∀ c ∈ t, (F c).Nodup)
+    (hlen : ∀ t ∈ ts, ∀ c ∈ t, ∀ s ∈ F c, s.length = L) :
+    ∀ w ∈ termsS (· ++ ·) [] (W F) ts, ∀ s ∈ w, s.length = L := by
+  intro w hw s hs
+  unfold termsS at hw
+  obtain ⟨t, ht, hwt⟩ := List.mem_flatMap.1 hw
+  obtain ⟨hl, hm⟩ := (termS_words F t (hF t ht)).2 w hwt
+  obtain ⟨i, hi, rfl⟩ := List.getElem_of_mem hs
+  have hi' : i < (canonTerm t).length := by omega
+  exact hlen t ht _ (mem_canonTerm t _ (List.getElem_mem hi')) _ (hm i hi hi')
+
+/-- [whole call, names only] all monomial names of all terms are pairwise distinct, and each has a length divisible by L -/
+theorem termsS_names_nodup (L : Nat) (hL : 1 ≤ L) (ts : List (List Char))
+    (hF : ∀ t ∈ ts, ∀ c ∈ t, (F c).Nodup)
+    (hlen : ∀ t ∈ ts, ∀ c ∈ t, ∀ s ∈ F c, s.length = L)
+    (hhd : ∀ t ∈ ts, ∀ c ∈ t, ∀ s ∈ F c, hd s = some c)
+    (hts : (ts.map canonTerm).Nodup) :
+    (termsS strMul "" F ts).Nodup ∧ ∀ n ∈ termsS strMul "" F ts, L ∣ n.length := by
+  rw [names_eq_map_words]
+  have hwl := word_lengths F L ts hF hlen
+  constructor
+  · refine List.Nodup.map_on ?_ (termsS_words_nodup F ts hhd hF hts)
+    intro w hw w' hw' e
+    exact monoName_inj_of_equal_length L hL w w' (hwl w hw) (hwl w' hw') e
+  · intro n hn
+    obtain ⟨w, hw, rfl⟩ := List.mem_map.1 hn
+    unfold joinW
+    rw [monoName_length L w (hwl w hw)]
+    exact Dvd.intro_left _ rfl
+end
+
+theorem sparseMonos_names (is : List Inter) (kw : List (Char × NsVal)) :
+    (sparseMonos is kw).map (·.1)
+      = termsS strMul "" (fun c => (featsSparse kw c).map (·.1)) (dedupFirst (strTerms is))
+        ++ (if constant is ≠ 0 then ["const"] else []) := by
+  unfold sparseMonos
+  rw [List.map_append, termsS_map pairMul pairOne strMul "" (·.1) (fun _ _ => rfl) rfl]
+  by_cases hc : constant is ≠ 0 <;> simp [hc]
+
+/-- [whole call] every namespace named by the terms has names of one common length `L ≥ 1` that start with the namespace
+letter, no two terms are the same up to regrouping of their letters, and the constant entry (name `const`, 5 characters)
+is absent or cannot be a monomial name (`L ∤ 5`): then no two named monomials of the call share a name -/
+theorem sparse_call_no_collision' (L : Nat) (hL : 1 ≤ L) (is : List Inter) (kw : List (Char × NsVal))
+    (hlen : ∀ t ∈ strTerms is, ∀ c ∈ t, ∀ p ∈ featsSparse kw c, p.1.length = L)
+    (hhd : ∀ t ∈ strTerms is, ∀ c ∈ t, ∀ p ∈ featsSparse kw c, hd p.1 = some c)
+    (hts : ((dedupFirst (strTerms is)).map canonTerm).Nodup)
+    (hconst : constant is = 0 ∨ 5 % L ≠ 0) :
+    ((sparseMonos is kw).map (·.1)).Nodup := by
+  rw [sparseMonos_names]
+  have hmem : ∀ t ∈ dedupFirst (strTerms is), t ∈ strTerms is := fun t ht => (mem_dedupFirst _ _).1 ht
+  obtain ⟨hn, hd5⟩ := termsS_names_nodup (fun c => (featsSparse kw c).map (·.1)) L hL (dedupFirst (strTerms is))
+    (fun t _ c _ => by unfold featsSparse sparseFeats; exact dictOf_keys_nodup' _)
+    (fun t ht c hc s hs => by obtain ⟨p, hp, rfl⟩ := List.mem_map.1 hs; exact hlen t (hmem t ht) c hc p hp)
+    (fun t ht c hc s hs => by obtain ⟨p, hp, rfl⟩ := List.mem_map.1 hs; exact hhd t (hmem t ht) c hc p hp)
+    hts
+  by_cases hc : constant is ≠ 0
+  · rw [if_pos hc]
+    rw [List.nodup_append]
+    refine ⟨hn, by simp, ?_⟩
+    intro a ha b hb
+    simp at hb; subst hb
+    intro e; subst e
+    have := hd5 _ ha
+    rcases hconst with h0 | h5
+    · exact hc h0
+    · apply h5
+      have h5' : ("const" : String).length = 5 := by decide
+      rw [h5'] at this
+      exact Nat.mod_eq_zero_of_dvd this
+  · rw [if_neg hc]; simpa using hn
+
+
+theorem featsSparse_hd (kw : List (Char × NsVal)) (c : Char) : ∀ p ∈ featsSparse kw c, hd p.1 = some c := by
+  intro p hp
+  have hk : p.1 ∈ (featsSparse kw c).map (·.1) := List.mem_map.2 ⟨p, hp, rfl⟩
+  unfold featsSparse sparseFeats at hk
+  rw [dictOf_keys_mem] at hk
+  simp only [List.map_map, List.mem_map, Function.comp_def] at hk
+  obtain ⟨kv, _, e⟩ := hk
+  rw [← e]
+  show (String.singleton c ++ kv.1.fmt).toList.head? = some c
+  rw [String.toList_append, String.toList_singleton]; rfl
+
+/-- the whole-call condition as the decidable predicate the driver evaluates -/
+theorem equalLenOK_no_collision' (L : Nat) (is : List Inter) (kw : List (Char × NsVal)) (h : equalLenOK L is kw = true) :
+    collides is kw = false := by
+  simp only [equalLenOK, Bool.and_eq_true, Bool.or_eq_true, decide_eq_true_eq, List.all_eq_true, beq_iff_eq,
+    Bool.not_eq_true', hasDup_eq_false_iff] at h
+  obtain ⟨⟨⟨hL, hlen⟩, hts⟩, hconst⟩ := h
+  have := sparse_call_no_collision' L hL is kw hlen (fun t _ c _ p hp => featsSparse_hd kw c p hp) hts hconst
+  unfold collides
+  exact (hasDup_eq_false_iff _).2 this
+
 end Coba.C20
